@@ -37,14 +37,14 @@ var (
 func init() {
 	kit.Register(&kit.Check{
 		Prop: "C06", Name: "chain", World: "CHAIN", Level: "exploration",
-		Rule: "one run = a seeded history of 20-45 blocks (thorough: 30-70) built by the real worker from seeded mixes of transfers, contract creations/calls (storage writer with clears, reverter, value forwarder, self-destructor), every staking action valid and invalid, double-sign evidences (genuine, late, forged, wrong index, twice, future), with varied round index/proposer, crossing 3-15 scaled staking periods; " +
+		Rule: "one run = a seeded history of 20-45 blocks (thorough: 30-70) built by the real worker from seeded mixes of transfers, contract creations/calls (storage writer with clears, reverter, value forwarder, self-destructor), every staking action valid and invalid, double-sign evidences (genuine, late, forged, wrong index, twice, future), about one block in ten nearly full by gas limits with an executable transfer the builder must refuse for lack of value, with varied round index/proposer, crossing 3-15 scaled staking periods; " +
 			"2-4 importers with different histories receive the same blocks (one by one + repeated imports of the same block on fresh objects over the same disk image; seeded batches / restart from disk every 1-4 blocks / TrieDB.Cap between blocks; in half of the runs a verifying node and the second builder first adopt a competing fork of length 1-3 built by a second real builder, then get the main chain as a side chain); " +
 			"oracle: every importer accepts every built block (main and fork), its canonical block, full raw state dump (all leaves of the three tries, storage tries, code, delegation blobs), stored receipts/logs equal the builder's and hash to the header's ReceiptHash/Bloom; repetitions agree; a run is non-trivial always (counts: faults fired = repeat/batch/restart/cap/fork/evidence kinds)",
 		Real: realParts, Stub: stubParts, FaultsNotInjected: notInjected, Assumptions: assumptions,
 		QuickBudget: 45 * time.Second, ThoroughBudget: 15 * time.Minute, MinRuns: 16,
 		Exec: runC06, PanicClass: kit.PanicInRepo("panic-in-block-processing"),
 		// reach probes every batch is expected to hit (listed in the evidence as probes_never_hit otherwise)
-		ExpectedProbes: []string{"delegation_add_failed", "delegation_sub_effect", "delegation_sub_failed", "deposit_failed", "gas-refund-earning-call-applied", "period-end", "recover_from_expired_expelling", "reorg-to-main-chain", "slash-data-in-header", "slashing", "withdraw_effect", "withdraw_result"},
+		ExpectedProbes: []string{"crowd-script", "delegation_add_failed", "delegation_sub_effect", "delegation_sub_failed", "deposit_failed", "gas-refund-earning-call-applied", "period-end", "recover_from_expired_expelling", "reorg-to-main-chain", "slash-data-in-header", "slashing", "withdraw_effect", "withdraw_result"},
 	})
 	kit.Register(&kit.Check{
 		Prop: "C07", Name: "chain", World: "CHAIN", Level: "exploration",
